@@ -435,6 +435,36 @@ def positional_binding(ctx, rid, core):
             ctx.inst(rid, "bind[%s]" % cls, ok and enum_ok, d, H.loc(aa["body"]))
 
 
+def call_arguments_in_order(ctx, rid, core):
+    """the argument vector a call hands over lists the arguments in the order they were written, a spread argument's elements in place
+    (shared with C15: `sum(...xs, b)`)"""
+    hev = core.hir_fn(EVAL)
+    mev = H.main_match(hev["body"], "ast::Expr")
+    call_arm = next((a_ for a_ in (mev["arms"] if mev else []) if any(H.last(v_) == "Call" for v_ in H.pat_variants(a_["pat"]))), None)
+    if call_arm is None:
+        ctx.inst(rid, "Call#arguments-in-order", None, "no Call arm found in the evaluator", None)
+        return
+    verdict, detail = None, "no loop that flattens spread arguments was recognised"
+    for lp in H.walk(call_arm["body"]):
+        if H.kind(lp) != "For":
+            continue
+        for m_ in H.walk(lp["body"]):
+            if H.kind(m_) != "Match":
+                continue
+            sp_arms = [a_ for a_ in m_["arms"] if any(H.last(v_) == "Spread" for v_ in H.pat_variants(a_["pat"]))]
+            other = [a_ for a_ in m_["arms"] if a_ not in sp_arms]
+            if not sp_arms or not other:
+                continue
+            def sinks(arms_):
+                return {H.path_local(x["recv"]) for a_ in arms_ for x in H.walk(a_["body"]) if H.kind(x) == "MethodCall" and x["name"] in ("push", "extend", "append", "extend_from_slice", "insert", "push_back", "push_front")} - {None}
+            s1, s2 = sinks(sp_arms), sinks(other)
+            fronts = [x["name"] for a_ in sp_arms + other for x in H.walk(a_["body"]) if H.kind(x) == "MethodCall" and x["name"] in ("insert", "push_front")]
+            if s1 and s2:
+                verdict = (s1 == s2 and len(s1) == 1 and not fronts)
+                detail = "spread elements go to %s, plain arguments to %s%s" % (sorted(s1), sorted(s2), "" if verdict else ": the arguments no longer arrive in the order they were written")
+    ctx.inst(rid, "Call#arguments-in-order", verdict, detail, H.loc(call_arm["body"]))
+
+
 def run(ctx):
     core = ctx.core
     ctx.not_decided += ["that a given closure returns the same value everywhere (the chain deliberately falls back to the caller's environment for names unbound at definition, which the statement excludes by its premise)"]
@@ -545,6 +575,7 @@ def run(ctx):
              ("if", ("bin", "Eq", REQ, ("call", "len", ARGSF)), ("ctor", "Exact", REQ), ("ctor", "Between", REQ, ("call", "len", ARGSF))))
     ctx.inst("C04.R3", "get_arity", S.verdict(t, wantg), "classification: %s" % S.show(t)[:300], H.loc(hga["body"]))
     positional_binding(ctx, "C04.R3", core)
+    call_arguments_in_order(ctx, "C04.R3", core)
     # arity is checked before anything is bound or evaluated
     chk = fc.calls_to(CORE + "functions::FunctionDef::check_arity")
     body_calls = fc.calls_to(EVAL) + fc.calls_to(CORE + "functions::BuiltInFunction::call")
